@@ -476,7 +476,11 @@ def c15_step(F):
             # the k-th answer of the policy belongs to the k-th item that asked for an edge: moves so far plus (out side) drops so far
             k = len(F.routing[(n.id, side)]) - 1
             if side == "out":
-                k += sum(1 for r in F.items.values() if r.loc == ("discarded", n))
+                if n.__class__.__name__ == "Source":
+                    # an item a source drops never enters the ledger: its own counter says how many answers went to dropped items
+                    k += n.stats.get("num_item_discarded", 0)
+                else:
+                    k += sum(1 for r in F.items.values() if r.loc == ("discarded", n))
             if k < len(exp) and exp[k] != idx:
                 F.soft("C15:item-routed-to-an-edge-other-than-the-policy-answered", {"node": n.id, "side": side, "k": k, "took": idx, "answer": exp[k]})
         if sel == "FIRST_AVAILABLE" or (n.__class__.__name__ == "Sink"):
@@ -916,7 +920,7 @@ def combo(props=("C20",), e1="buffer", e2="buffer", w=1, blocking=True, src_bloc
             # zero, or at least half a time unit (an arbitrarily small period would mean unboundedly many timer events)
             fd = 0 if ctx.choice(2, "fleet-delay-zero?") else ctx.real("fd", 0.5, 2)
         else:
-            fd = 1
+            fd = 1 if fdelay == "sym" else fdelay
         ft = ctx.real("ft", 0, 1) if "ft" in sym else 0.5
         kw = dict(fdelay=fd, transit=ft, acc=acc)
 
@@ -931,7 +935,15 @@ def combo(props=("C20",), e1="buffer", e2="buffer", w=1, blocking=True, src_bloc
                                       out_edge_selection=src_sel)) for i in range(n_src)]
             sinks = [F.add_node(Sink(env, f"K{j}")) for j in range(n_out)]
             return m, srcs, sinks
-        if order == "edges-first":
+        if order == "ctor-edges":
+            # edges handed to the node constructors AND connected afterwards (the style of tests/test_machine.py): each edge must end up registered once
+            ins, outs = mk_edges()
+            m = F.add_node(Machine(env, "M", in_edges=list(ins), out_edges=list(outs), work_capacity=w, processing_delay=pd, blocking=blocking,
+                                   in_edge_selection=in_sel, out_edge_selection=out_sel))
+            srcs = [F.add_node(Source(env, f"S{i}", out_edges=[ins[i]], inter_arrival_time=F.delay_source(f"S{i}", [iat] * n_items, "generator"),
+                                      blocking=src_blocking, out_edge_selection=src_sel)) for i in range(n_src)]
+            sinks = [F.add_node(Sink(env, f"K{j}", in_edges=[outs[j]])) for j in range(n_out)]
+        elif order == "edges-first":
             ins, outs = mk_edges()
             m, srcs, sinks = mk_nodes()
         else:
@@ -941,6 +953,10 @@ def combo(props=("C20",), e1="buffer", e2="buffer", w=1, blocking=True, src_bloc
             ins[i].connect(srcs[i], m)
         for j in range(n_out):
             outs[j].connect(m, sinks[j])
+        for n in [m] + srcs + sinks:
+            for lst in (getattr(n, "in_edges", None) or [], getattr(n, "out_edges", None) or []):
+                if len({id(x) for x in lst}) != len(lst):
+                    F.soft("C20:edge-registered-twice-with-a-node", {"node": n.id})
         F.step_hooks.append(mon_capacity)
         # monotone simulated time (side assertion, see DESIGN.md §10)
         last = {"t": 0}
